@@ -24,7 +24,7 @@ na = [{"property_id": pid, "reason": pc.NOT_APPLICABLE.get(pid, "check not built
       for pid in ids if pid not in pc.PROPS]
 doc = {
     "version": 1,
-    "setup_cmd": "python3 build.py asan && python3 build.py tsan && python3 build.py plain && python3 build.py serial && python3 build.py omp",
+    "setup_cmd": " && ".join(f"python3 build.py {f}" for f in sorted({fl for p in pc.PROPS.values() for fl in ([p["flavour"]] + p.get("extra_flavours", []))})),
     "hooks": {"guard": pc.GUARD, "enable": f"build.py compiles every translation unit of /repo and of the harness with -D{pc.GUARD}",
               "baseline_off_cmd": "cmake --build /repo/_build -j16 && ctest --test-dir /repo/_build -j8 --timeout 900",
               "source_commits": pc.HOOK_COMMITS, "add_only": True},
